@@ -8,7 +8,10 @@ def _vector_norm_safe(arr, /):
     """Evaluate the Euclidean norm without over- or underflow for badly scaled inputs."""
     scale = np.amax(np.abs(arr))
     scale_safe = np.where(scale > 0.0, scale, 1.0)
-    return scale * linalg.vector_norm(arr / scale_safe)
+    # Scale in two stages: for scale > 4.5e307, 1/scale is subnormal
+    # (and arr / scale is compiled to arr * (1/scale), which flushes to zero).
+    root_inv = 1.0 / np.sqrt(scale_safe)
+    return scale * linalg.vector_norm((arr * root_inv) * root_inv)
 
 
 def dt0(vf, initial_values: Sequence, /, scale=0.01, nugget=1e-5, **vf_kwargs):
